@@ -735,6 +735,19 @@ class SymExec:
             info["discr"] = self.operand(st, t["discr"])
             info["targets"] = [(int(v), b) for v, b in t["targets"]]
             info["otherwise"] = t["otherwise"]
+            # a test of a value that is a constant here (the variant of an enum value built a few
+            # statements earlier - a looked-through helper matching on its by-value argument):
+            # only the edge it selects carries a state
+            self.dead_edges = {e for e in self.dead_edges if e[0] != bb}
+            dv = fold_consts(info["discr"])
+            while dv[0] == "cast" and dv[1] == "IntToInt":
+                dv = dv[2]
+            if dv[0] == "int" and len(dv) > 2 and dv[2] == "discr":
+                taken = dict(info["targets"]).get(dv[1], info["otherwise"])
+                for s_ in set([b_ for _, b_ in info["targets"]] + [info["otherwise"]]):
+                    if s_ != taken:
+                        self.dead_edges.add((bb, s_))
+                info["taken"] = taken
         elif k == "assert":
             info["cond"] = self.operand(st, t["cond"])
             info["expected"] = t["expected"]
@@ -831,6 +844,7 @@ class SymExec:
         return {k: v for k, v in out.items() if not any(x in gone for x in walk(v))} or ({k: v for k, v in list(out.items())[:1]} if out else {})
 
     def _fixpoint(self):
+        self.dead_edges = set()
         order = rpo(self.body)
         preds = self.body.preds()
         self.converged = False
@@ -841,7 +855,7 @@ class SymExec:
                 if bb == 0:
                     ins = {}
                 else:
-                    po = [(p, self.out_state[p]) for p in preds[bb] if p in self.out_state]
+                    po = [(p, self.out_state[p]) for p in preds[bb] if p in self.out_state and (p, bb) not in self.dead_edges]
                     if not po:
                         continue
                     ins = self.join(bb, po)
